@@ -239,6 +239,9 @@ namespace bloch::runtime {
             bool initialized = false;
         };
         std::vector<std::unordered_map<std::string, VarEntry>> m_env;
+        // Index of the first scope of the running activation; name lookup stops here so a
+        // callee never resolves names against its callers' locals.
+        size_t m_frameBase = 0;
         Value m_returnValue;
         bool m_hasReturn = false;
         std::unordered_map<const Expression*, std::vector<int>> m_measurements;
